@@ -2703,18 +2703,20 @@ class Composite(Runner):
 
                 else:
                     raise exceptions.RallyAssertionError("Requests structure must contain [stream] or [operation-type].")
+
+            # complete any outstanding streams
+            if streams:
+                streams_timings = await asyncio.gather(*streams)
+                for stream_timings in streams_timings:
+                    timings += stream_timings
         except BaseException:
-            # stop all already created tasks in case of exceptions
+            # stop all already created tasks in case of exceptions and wait until they are gone: none of their requests may
+            # still be in flight when the request that they belong to is considered finished
             for s in streams:
                 if not s.done():
                     s.cancel()
+            await asyncio.gather(*streams, return_exceptions=True)
             raise
-
-        # complete any outstanding streams
-        if streams:
-            streams_timings = await asyncio.gather(*streams)
-            for stream_timings in streams_timings:
-                timings += stream_timings
         return timings
 
     async def __call__(self, es, params):
